@@ -946,6 +946,14 @@ func genFilterOpts(g *RNG, meta *MetaTable, parent *ModelReg, errP float64) *Fil
 			o.NameFilter = nil
 		}
 	}
+	// a profile or two added to the options (AddProfile appends its lint names to IncludeNames)
+	if g.Chance(0.1) && len(harnessProfiles) > 0 {
+		pn := sortedKeys(harnessProfiles)
+		o.Profiles = []string{pick(g, pn)}
+		if g.Chance(0.3) {
+			o.Profiles = append(o.Profiles, pick(g, pn))
+		}
+	}
 	sortIfAsked(g, o)
 	return o
 }
@@ -968,6 +976,9 @@ func (o *FilterOpts) String() string {
 	nf := "<nil>"
 	if o.NameFilter != nil {
 		nf = *o.NameFilter
+	}
+	if len(o.Profiles) > 0 {
+		return fmt.Sprintf("re=%s in=%d ex=%d insrc=%v exsrc=%v profiles=%v", nf, len(o.IncludeNames), len(o.ExcludeNames), o.IncludeSources, o.ExcludeSources, o.Profiles)
 	}
 	return fmt.Sprintf("re=%s in=%d ex=%d insrc=%v exsrc=%v", nf, len(o.IncludeNames), len(o.ExcludeNames), o.IncludeSources, o.ExcludeSources)
 }
